@@ -51,7 +51,10 @@ theorem stepOp_ops' {s s' : State} {i : Nat} {oc : Outcome} {y : Op}
         | skip
       all_goals (simp only [Option.some.injEq] at hs; subst hs)
       all_goals exact ⟨_, rfl, fun _ => rfl⟩
-    · simp at hs
+    · split at hs
+      · simp only [stepRetPanic, Option.some.injEq] at hs; subst hs
+        exact ⟨_, rfl, fun _ => rfl⟩
+      · simp at hs
   | take pc o add =>
     simp only at hs
     split at hs
@@ -63,7 +66,10 @@ theorem stepOp_ops' {s s' : State} {i : Nat} {oc : Outcome} {y : Op}
         | skip
       all_goals (simp only [Option.some.injEq] at hs; subst hs)
       all_goals exact ⟨_, rfl, fun _ => rfl⟩
-    · simp at hs
+    · split at hs
+      · simp only [stepTakePanic, Option.some.injEq] at hs; subst hs
+        exact ⟨_, rfl, fun _ => rfl⟩
+      · simp at hs
   | resize n c pc old =>
     simp only at hs
     split at hs
